@@ -442,3 +442,35 @@ Proof.
   induction rest as [|c r IH]; cbn [map eval_elifs cascade fst snd]; [reflexivity|].
   rewrite use_test_xor. destruct (xorb _ _); [reflexivity|exact IH].
 Qed.
+
+(* ifuses over a changing world: the If node built by UseQuery.parse evaluates exactly like the ordinary chain, including the
+   world it leaves behind (same queries asked, same order, same number of times) *)
+Lemma use_testT_xor (S : Type) (ask : S -> N -> bool * S) neg q s :
+  use_testT ask neg q s = (xorb neg (fst (ask s q)), snd (ask s q)).
+Proof. unfold use_testT. destruct (ask s q) as [a s']. destruct neg, a; reflexivity. Qed.
+
+Theorem ifusesT_is_chain_lemma (S B : Type) (ask : S -> N -> bool * S) (first : bool * N * B) (rest : list (bool * N * B)) (else_ : B) (s : S) :
+  eval_ifT (parse_ifusesT ask first rest else_) s = run_chain ask (first :: rest) else_ s.
+Proof.
+  unfold parse_ifusesT. cbn [eval_ifT run_chain]. rewrite use_testT_xor. destruct (ask s (snd (fst first))) as [a s']. cbn [fst snd].
+  destruct (xorb (fst (fst first)) a); [reflexivity|]. clear s a. revert s'.
+  induction rest as [|c r IH]; intros s; cbn [map eval_elifsT run_chain fst snd]; [reflexivity|].
+  rewrite use_testT_xor. destruct (ask s (snd (fst c))) as [a s']. cbn [fst snd].
+  destruct (xorb (fst (fst c)) a); [reflexivity|apply IH].
+Qed.
+
+Lemma render_seq_ext (S B : Type) (r1 r2 : list (S -> B * S)) :
+  Forall2 (fun f g => forall s, f s = g s) r1 r2 -> forall s, render_seq r1 s = render_seq r2 s.
+Proof.
+  induction 1 as [|f g r1 r2 Hfg _ IH]; intros s; cbn [render_seq]; [reflexivity|].
+  rewrite Hfg. destruct (g s) as [b s']. rewrite IH. reflexivity.
+Qed.
+
+Theorem ifuses_seq_is_chain_seq_lemma (S B : Type) (ask : S -> N -> bool * S)
+        (steps : list ((bool * N * B) * list (bool * N * B) * B)) (s : S) :
+  render_seq (map (fun st => eval_ifT (parse_ifusesT ask (fst (fst st)) (snd (fst st)) (snd st))) steps) s =
+  render_seq (map (fun st => run_chain ask (fst (fst st) :: snd (fst st)) (snd st)) steps) s.
+Proof.
+  apply render_seq_ext. induction steps as [|st r IH]; cbn [map]; constructor; [|exact IH].
+  intros s0. apply ifusesT_is_chain_lemma.
+Qed.
